@@ -2,9 +2,11 @@
 
 Ties
   T  harness/translate/fmt_table.py regenerates lean/Emboss/Generated/FmtTable.lean
-     (grammar productions + production -> handler registry) before the Lean build; the
-     table obligations (`C11_table_ok`, typing of every handler at every production,
-     glued terminal pairs) are re-decided by `lake build`.
+     (grammar productions + production -> handler registry, sorted, plus an interned copy)
+     before the Lean build; `C11_table_ok` (every handler known, registered with the right
+     calling convention, typed at every production, ignoring only layout tokens; registry =
+     grammar) is re-decided in the kernel by `lake build`; the compiled checker re-evaluates
+     it (op TABLE) together with the separability obligation (ops GLUE / GLUECHECK).
   C  real `format_emb.format_emboss_parse_tree(tree, Config(indent_width=k))` vs the model
      driver op `FMT k <tree>` on the same parse tree: byte-identical text, k in 1..8;
      real `sanity_check_format_result` vs op `SANITY` on token streams.
@@ -632,12 +634,8 @@ def sanity_ops(st, r, pairs):
         ot, e2 = tokenizer.tokenize(o, "")
         if e1 or e2:
             continue
-        want = real_sanity(f, o)
-        if want == "indexerror":
-            # the model says where; the Python exception does not
-            ops.append(("%s %s %s" % (opname, tok_arg(ft), tok_arg(ot)), want, (f, o)))
-        else:
-            ops.append(("%s %s %s" % (opname, tok_arg(ft), tok_arg(ot)), want, (f, o)))
+        # (for IndexError the model also says at which index; the comparison only looks at the kind)
+        ops.append(("%s %s %s" % (opname, tok_arg(ft), tok_arg(ot)), real_sanity(f, o), (f, o)))
     return ops
 
 
